@@ -221,6 +221,7 @@ def handle (line : String) : String :=
   | ["pom", pv, ds, ps, us, rb] => PomDrv.handlePom pv ds ps us rb
   | ["pomc", pv, ds, ps, us, rb] => PomDrv.handlePom pv ds ps us rb   -- comment inside the first <version> (layout only)
   | ["pomd", pv, ds, ps, us, rb] => PomDrv.handlePom pv ds ps us rb   -- CDATA inside the first <version> (layout only)
+  | ["poma", pv, ds, ps, us, rb] => PomDrv.handlePom pv ds ps us rb   -- attributes on <dependency> / <properties> (layout only)
   | ["pome", pv, ds, ps, us, rb] => PomDrv.handlePom pv ds ps us rb   -- <dependencyManagement/> (layout only)
   | ["pomf", pv, ds, ps, us, rb] => PomDrv.handlePom pv ds ps us rb   -- <dependencyManagement> holding <dependencies/> (layout only)
   | _ => "bad-op"
